@@ -132,7 +132,7 @@ class Contract:
     def __init__(self, module, file, qual, params, ret=None, yields=None, requires=(), ensures=(), raises=None,
                  raises_ensures=None, locals=None, loops=None, calls=None, globals=None, modifies=(), defaults=None,
                  ignore_kwargs=False, star=None, exc_parents=None, comp_types=None, canaries=(), properties=(),
-                 trusted=False, note="", receiver_classes=None, use=(), inputs=None, native_fn=None, shards=1, native_frame_skip=(), callable_recv=False, no_library=False, cursors=None, index_map_type=None, fresh_result=False):
+                 trusted=False, note="", receiver_classes=None, use=(), inputs=None, native_fn=None, shards=1, native_frame_skip=(), callable_recv=False, no_library=False, cursors=None, index_map_type=None, fresh_result=False, ghost_after=None):
         self.no_library = no_library
         self.index_map_type = index_map_type
         self.cursors = dict(cursors or {})
@@ -142,6 +142,9 @@ class Contract:
         self.use = list(use)
         self.native_inputs = inputs
         self.native_fn = native_fn
+        # ghost lemma invocations: {"<callee text>#<k>": [(lemma name, {lemma var: expression over the caller's variables and `result`})]}
+        # instances of PROVED sidecar lemmas assumed right after the k-th call (source order) of that callee
+        self.ghost_after = ghost_after or {}
         self.fresh_result = fresh_result    # the returned object shares nothing with the arguments or any state (assumed for trusted contracts)
         self.module = module
         self.file = file
@@ -261,6 +264,7 @@ def gen_function_vcs(contract, registry, feasible=None, extra_post=None):
     n_loops = number_loops(node)
     ctx = Ctx(contract, contract.ns, feasible)
     ctx.n_loops = n_loops
+    ctx.func_ast = node
     ex = StmtExec(ctx, registry)
     st = State()
     for p, ty in contract.params.items():
